@@ -29,7 +29,7 @@ MSRS = "broker::store::MigrationSlotRangeStore"
 MUTANTS = [
     {"name": "assign-importing-to-src", "file": "src/broker/migrate.rs", "old": "                    .get_mut(meta.dst_chunk_index)\n                    .expect(\"assign_dst_slots\");\n                let migrating_slots = dst_chunk\n                    .migrating_slots\n                    .get_mut(meta.dst_chunk_part)",
      "new": "                    .get_mut(meta.dst_chunk_index)\n                    .expect(\"assign_dst_slots\");\n                let migrating_slots = dst_chunk\n                    .migrating_slots\n                    .get_mut(meta.src_chunk_part)", "expect": "C01.D2:assign_dst_slots"},
-    {"name": "limit-drop-importing-push", "file": "src/broker/store.rs", "old": "                            .expect(\"limit_migration\")\n                            .push(importing_slot_range_store);\n", "new": "                            .expect(\"limit_migration\");\n                        let _ = importing_slot_range_store;\n", "expect": "C01.D2:limit_migration"},
+    {"name": "limit-drop-importing-push", "file": "src/broker/store.rs", "old": "                            .expect(\"limit_migration\")\n                            .push(importing_slot_range_store);\n", "new": "                            .expect(\"limit_migration\");\n                        let _ = importing_slot_range_store;\n", "expect": "C01.D2"},
     {"name": "limit-deferred-merged-into-dst", "file": "src/broker/store.rs", "old": "                            .get_mut(meta.src_chunk_index)\n                            .and_then(|chunk| chunk.stable_slots.get_mut(meta.src_chunk_part))", "new": "                            .get_mut(meta.dst_chunk_index)\n                            .and_then(|chunk| chunk.stable_slots.get_mut(meta.dst_chunk_part))", "expect": "C01.D2:limit_migration:deferred"},
     {"name": "commit-find-ignores-direction", "file": "src/broker/migrate.rs", "old": "                        && slot_range_store.meta.epoch == task_epoch\n                        && !slot_range_store.is_migrating\n", "new": "                        && slot_range_store.meta.epoch == task_epoch\n", "expect": "C01.D3:predicate"},
     {"name": "commit-retain-ignores-meta", "file": "src/broker/migrate.rs", "old": "                            && slot_range_store.range_list == task.slot_range.range_list\n                            && slot_range_store.meta == meta)", "new": "                            && slot_range_store.range_list == task.slot_range.range_list)", "expect": "C01.D3:predicate"},
